@@ -23,6 +23,14 @@ def payload_sweep(ctx, execs):
     for at in range(4, 160, (12 if ctx.quick else 3)):
         for lat in (0.0, 0.05):
             items.append((mid, {"seed": 150 + at, "ext_mid": [[at, "1", "SUCCEEDED", "mid-payload"]], "api_latency": lat, "max_inv": 12}))
+    # callbacks / invokes inside a map / parallel branch that is resumed IN-PROCESS (a sibling is still running)
+    conc = [{"nodes": [{"k": "par", "branches": [[{"k": "invoke", "caught": True}, {"k": "step"}], [{"k": "step", "dur": 2.0}]]}, {"k": "step"}]},
+            {"nodes": [{"k": "par", "branches": [[{"k": "cb", "between": [{"k": "wait", "s": 1}]}], [{"k": "step", "dur": 3.0}]]}, {"k": "step"}]},
+            {"nodes": [{"k": "map", "branches": [[{"k": "wait", "s": 1}, {"k": "cb", "between": [], "caught": True}],
+                                                 [{"k": "step", "dur": 2.5}, {"k": "invoke", "caught": True}]]}, {"k": "step"}]}]
+    for p in conc:
+        for k in range(2 if ctx.quick else 8):
+            items.append((p, {"seed": 170 + k, "api_latency": (0.3, 0.05)[k % 2], "max_inv": 12, "strategy": "pct" if k % 2 else "random"}))
     out = run_campaign(ctx, items)
     for e in out:
         oracles.c14(ctx, e)
